@@ -868,7 +868,7 @@ func killCases(tier string) int {
 // replay cases, then real-kill cases, then cosmosdb cases
 func crashCases(tier string) int {
 	if tier == "thorough" {
-		return replayCases(tier) + killCases(tier) + 40
+		return replayCases(tier) + killCases(tier) + 24
 	}
 	return replayCases(tier) + killCases(tier) + 3
 }
